@@ -352,13 +352,37 @@ Count(t, c) == Cardinality({i \in 1..Len(t.subs) : t.subs[i].kw = c})
 ChildPaths(t, path, c) == {Append(path, i) : i \in {j \in 1..Len(t.subs) : t.subs[j].kw = c}}
 F(kind, kw, path, at, judged) == [kind |-> kind, kw |-> kw, path |-> path, at |-> at, judged |-> judged]
 
-CardViol(t, path) ==
-  LET p == PId(t)   tab == Sub(p)
-      kws == {t.subs[i].kw : i \in 1..Len(t.subs)} \cup DOMAIN tab IN
+(* Extension cardinalities.  parse.Parse takes, as its third argument, a function that gives the cardinality
+   of the caller's (registered, configd: / opd:) extension statements under each parent; the cells of one call
+   are E = [parent |-> [extension keyword |-> <<min, max>>]] and hold for THAT parse only.  A registered extension
+   the function does not mention under a parent is not judged (the property says "accepted anywhere", the code's
+   own table says "invalid substatement"; DESIGN Appendix A leaves the vyatta extensions to the code).        *)
+NoExt == [p \in {} |-> << >>]
+ExtOf(E, p) == IF p \in DOMAIN E THEN E[p] ELSE [c \in {} |-> <<0, 0>>]
+Registered(c) == (Len(c) > 8 /\ SubSeq(c, 1, 8) = "configd:") \/ (Len(c) > 4 /\ SubSeq(c, 1, 4) = "opd:")
+ExtFns ==
+  [nil   |-> NoExt,
+   empty |-> NoExt,
+   opt   |-> [p \in {"leaf", "container", "description"} |-> [c \in {"configd:help"} |-> <<0, 1>>]],
+   mand  |-> [p \in {"container", "list"} |-> IF p = "container" THEN [c \in {"configd:help"} |-> <<1, 1>>]
+                                                                  ELSE [c \in {"configd:validate"} |-> <<1, N>>]],
+   rep   |-> [p \in {"leaf", "typedef", "units"} |-> IF p = "typedef" THEN [c \in {"configd:help"} |-> <<0, N>>]
+                                                                         ELSE [c \in {"configd:validate"} |-> <<0, N>>]],
+   mix   |-> [p \in {"leaf", "module", "key"} |-> IF p = "leaf" THEN [c \in {"configd:help", "configd:validate"} |->
+                                                                       IF c = "configd:help" THEN <<1, 1>> ELSE <<0, 1>>]
+                                                                  ELSE [c \in {"configd:help"} |-> <<0, 1>>]]]
+ExtNames == DOMAIN ExtFns
+
+CardViolX(t, path, E) ==
+  LET p == PId(t)   tab == Sub(p)   ex == ExtOf(E, p)
+      kws == {t.subs[i].kw : i \in 1..Len(t.subs)} \cup DOMAIN tab \cup DOMAIN ex IN
   IF p = "deviate ?" THEN {}    \* the argument is the violation; substatements of an unknown kind are not judged
   ELSE UNION {
     LET n == Count(t, c)  here == {path} \cup ChildPaths(t, path, c) IN
-    IF IsExtKw(c) THEN {}
+    IF c \in DOMAIN ex THEN (IF n < ex[c][1] THEN {F("missing", c, path, {path}, TRUE)}
+                             ELSE IF n > ex[c][2] THEN {F("too-many", c, path, here, TRUE)} ELSE {})
+    ELSE IF Registered(c) THEN (IF n > 0 THEN {F("registered-extension", c, path, here, FALSE)} ELSE {})
+    ELSE IF IsExtKw(c) THEN {}
     ELSE IF c \notin Keywords THEN {F("unknown-keyword", c, path, here, TRUE)}
     ELSE IF CellUnjudged(p, c, n) THEN {F("cell", c, path, here, FALSE)}
     ELSE IF c \notin DOMAIN tab THEN {F("not-allowed", c, path, here, TRUE)}
@@ -391,15 +415,16 @@ ArgViol(t, path, parentKw) ==
   IF v = "invalid" THEN {F("argument", t.kw, path, at, TRUE)}
   ELSE IF v = "unjudged" THEN {F("argument", t.kw, path, at, FALSE)} ELSE {}
 
-RECURSIVE ViolAt(_, _, _)
-ViolAt(t, path, parentKw) ==
+RECURSIVE ViolAtX(_, _, _, _)
+ViolAtX(t, path, parentKw, E) ==
   IF IsExtKw(t.kw) THEN      \* extension statements are accepted anywhere; what is inside them is not judged
     (IF \E i \in 1..Len(t.subs) : ~IsExtKw(t.subs[i].kw) THEN {F("inside-extension", t.kw, path, {path}, FALSE)} ELSE {})
   ELSE IF t.kw \notin Keywords THEN {}      \* reported by the parent as unknown-keyword
-  ELSE ArgViol(t, path, parentKw) \cup CardViol(t, path) \cup BodyViol(t, path)
+  ELSE ArgViol(t, path, parentKw) \cup CardViolX(t, path, E) \cup BodyViol(t, path)
        \cup OrderViol(t, path) \cup RevViol(t, path)
-       \cup UNION {ViolAt(t.subs[i], Append(path, i), t.kw) : i \in 1..Len(t.subs)}
-Viol(tree) == ViolAt(tree, << >>, "")
+       \cup UNION {ViolAtX(t.subs[i], Append(path, i), t.kw, E) : i \in 1..Len(t.subs)}
+ViolX(tree, E) == ViolAtX(tree, << >>, "", E)
+Viol(tree) == ViolX(tree, NoExt)
 \* Scoping of typedef / grouping names (no redefinition, no shadowing, no built-in type name) is a
 \* semantic rule that the parser happens to enforce: trees that might break it are not judged.
 Builtin == {"binary","bits","boolean","decimal64","empty","enumeration","identityref","instance-identifier",
@@ -415,11 +440,13 @@ ScopeViol(tree) ==
 RootViol(tree) == IF tree.kw \in {"module", "submodule"} THEN {} ELSE {F("root", tree.kw, << >>, {<< >>}, FALSE)}
 
 \* the verdict the property prescribes
-AllViol(tree) == Viol(tree) \cup RootViol(tree) \cup ScopeViol(tree)
+AllViolX(tree, E) == ViolX(tree, E) \cup RootViol(tree) \cup ScopeViol(tree)
+AllViol(tree) == AllViolX(tree, NoExt)
 ExpectOf(v) ==
   LET jv == {f \in v : f.judged} IN
   [verdict |-> IF v = {} THEN "accept" ELSE IF jv # {} THEN "reject" ELSE "unjudged",
    locate |-> jv # {} /\ jv = v,         \* with unjudged parts around, only the rejection itself is demanded
    bad |-> jv]
 Expect(tree) == ExpectOf(AllViol(tree))
+ExpectX(tree, E) == ExpectOf(AllViolX(tree, E))      \* the verdict of a parse that was given the extension cardinalities E
 =============================================================================
